@@ -146,7 +146,9 @@ func c12Pair(op string, signed bool, w int, k string, x, y *big.Int) (fv, rv *bi
 	if !folded {
 		return nil, nil, "not-folded", ""
 	}
-	var cc, rc interface{ Compute([]*big.Int) ([]*big.Int, error) }
+	var cc, rc interface {
+		Compute([]*big.Int) ([]*big.Int, error)
+	}
 	func() {
 		defer func() {
 			if p := recover(); p != nil {
